@@ -78,6 +78,7 @@ def fault_locations(pkg):
     if len(slides) >= 1:
         out.append(["rename", "gap"])
         out.append(["rename", "shift100"])
+        out.append(["rename", "shift1"])
     if len(slides) >= 2:
         out.append(["rename", "reverse"])
         out.append(["rename", "rotate"])
@@ -201,6 +202,9 @@ def apply_fault(pkg, f):
         how = f[1]
         if how == "gap":
             new = ["%s/slide%d.xml" % (d, 2 * i + 3) for i in range(n)]
+        elif how == "shift1":
+            # what a deck looks like after its first slide was deleted and it was saved: slide2..slide(n+1)
+            new = ["%s/slide%d.xml" % (d, i + 2) for i in range(n)]
         elif how == "shift100":
             new = ["%s/slide%d.xml" % (d, 100 + i) for i in range(n)]
         elif how == "reverse":
@@ -344,6 +348,27 @@ def run_fault_case(case, rec=None):
         o1 = O.Pkg.read(out.getvalue())
         compare(pkg, o1, "C16:saved:" + fk, drop_dangling=True)
         check_refs(pkg, o1, fk)
+        # a deck that came without core properties gains them on first access: nothing it had may get lost by that
+        if any(f[0] == "no_core" for f in applied) or not any(
+                r.type.endswith("/core-properties") for r in o1.rels("/")):
+            with sut("C16:core-properties-after-open:" + fk):
+                prs.core_properties.author = "verif"
+                out4 = io.BytesIO()
+                prs.save(out4)
+            o4 = O.Pkg.read(out4.getvalue())
+            r1, _m1, _d1 = o1.reachable()
+            r4, _m4, _d4 = o4.reachable()
+            lost = [n for n in r1 if n not in r4]
+            if lost or o4.dups:
+                raise Violation("C16:core-properties-after-open:parts-lost:%s" % fk,
+                                "%s with %s: after the first access to core_properties the saved package lacks %s "
+                                "(duplicates %s)" % (deck, applied, lost[:4], o4.dups[:4]))
+            k1 = sorted(r.key() for r in o1.rels("/"))
+            k4 = sorted(r.key() for r in o4.rels("/"))
+            gone = [k for k in k1 if k not in k4]
+            if gone:
+                raise Violation("C16:core-properties-after-open:package-rels-lost:%s" % fk,
+                                "%s with %s: package relationships %s disappeared" % (deck, applied, gone[:3]))
         # slide order / content preserved (only for faults that remove no relationship)
         if all(f[0] in ("rename", "caseflip_ct", "extra", "extra_dir", "no_core", "unknown_ct") for f in applied):
             exp_slides = slide_parts(pkg)
